@@ -1130,6 +1130,9 @@ impl Interner {
             }
         }
 
+        #[cfg(feature = "verif_hooks")]
+        crate::verif::sync_point("intern::after_read_miss");
+
         // Not found, so insert a new one
         {
             let mut write_shard = typed_shard.write_shard(shard_index);
